@@ -32,14 +32,16 @@ struct SDef {
     items: Vec<Item>,
 }
 
-const TOKEN_SEP: [&str; 17] = [
+const TOKEN_SEP: [&str; 18] = [
     " ", "  ", "\t", "\n", "\r\n", "\r", "\n:", "\n:   ", " # x=99 inv comment\n", "\n# y=98 | z=97 own line comment\n", "\n\n",
     // the same with the other two line ends (a comment ends at ANY line end, a continuation colon follows ANY line end)
     "\r:", "\r\n:", " # x=99 inv comment\r", " # x=99 inv comment\r\n", "\r# y=98 | z=97 own line comment\r", "\r\n# y=98 | z=97 own line comment\r\n",
+    // a comment runs from the FIRST '#' of the line
+    " # x=95 # second hash in one comment | inv\n",
 ];
 const EQ_SEP: [&str; 5] = ["=", " =", "= ", " = ", "\t=\n"];
 const COMMA_SEP: [&str; 4] = [",", " ,", ", ", " ,\n"];
-const PIPE_PAD: [&str; 10] = [" ", "", "  ", "\n", "\r\n", " # inv x=96 comment after step\n", "\n\n", "\r", " # inv x=96 comment after step\r", " # inv x=96 comment after step\r\n"];
+const PIPE_PAD: [&str; 11] = [" ", "", "  ", "\n", "\r\n", " # inv x=96 comment after step\n", "\n\n", "\r", " # inv x=96 comment after step\r", " # inv x=96 comment after step\r\n", " # the step # (sic) x=94\n"];
 const EDGE: [&str; 6] = ["", " ", "\n", "\t", "\r\n", "\r"];
 const EMPTY_STEP: [&str; 3] = ["", "|", "| |"];
 
